@@ -155,8 +155,8 @@ class C19(Harness):
                     def rd():
                         try:
                             return getattr(w['i'][op[1]], op[2])
-                        except ZeroDivisionError:
-                            return 'EXC'
+                        except Exception as e:          # (the Faulty generator raises ZeroDivisionError at time 1)
+                            return 'EXC:' + type(e).__name__
                     v = rd()
                     v2 = rd()
                     key = (GENS[op[2]], model['time'])
@@ -171,7 +171,7 @@ class C19(Harness):
                                         after=history[-2][0] if len(history) > 1 else 'start'))
                     else:
                         model['table'][key] = v
-                    if v != 'EXC':
+                    if not (isinstance(v, str) and v.startswith('EXC')):
                         model['last'][op[1]][op[2]] = v
                 elif k == 'inspect':
                     v = w['i'][op[1]].param.inspect_value(op[2])
